@@ -57,7 +57,9 @@ Decs(e) == /\ \A k \in 1..Len(e.items) : PropDec(e.items[k])
            /\ \A k \in 1..Len(e.items) : Detail(DetailDec(e.items[k]), "read_int detail " \o ToString(e.items[k]))
 
 (* ------------------------------------------------------------ packer *)
-PkNewSt(e) == [m |-> "pk", cap |-> e.cap, buf |-> <<>>, plen |-> 0, allok |-> TRUE, okpre |-> <<>>, items |-> <<>>]
+\* buf: the detailed model's buffer; plen: the real length so far; acc / accpre: the ACCEPTED items and
+\* the concatenation of their wire forms
+PkNewSt(e) == [m |-> "pk", cap |-> e.cap, buf |-> <<>>, plen |-> 0, allok |-> TRUE, accpre |-> <<>>, acc |-> <<>>]
 
 Item(e) == [k |-> e.k, x |-> e.x, b |-> e.b]
 W(e) == LET it == Item(e)
@@ -70,28 +72,34 @@ W(e) == LET it == Item(e)
         /\ ok <=> (st.plen + n <= st.cap)
         /\ ok => e.after = st.plen + n
         /\ st.plen <= e.after /\ e.after <= st.cap
+        \* what is accepted is read back in order: an accepted (non-empty) item directly follows the
+        \* previously accepted ones -- a refused write must leave the buffer unchanged or unable to
+        \* accept anything (libtw2: filled up), never bytes of its own in front of later items
+        /\ (ok /\ n > 0) => st.plen = Len(st.accpre)
         /\ Detail(e.after = Len(WriteBuf(st.buf, st.cap, it)), "length after a refused write")
 WSt(e) == LET it == Item(e) ok == e.res = "ok" IN
           [st EXCEPT !.buf = WriteBuf(st.buf, st.cap, it), !.plen = e.after, !.allok = @ /\ ok,
-                     !.okpre = IF st.allok /\ ok THEN @ \o Enc(it) ELSE @,
-                     !.items = Append(@, it)]
+                     !.accpre = IF ok THEN @ \o Enc(it) ELSE @,
+                     !.acc = IF ok THEN Append(@, it) ELSE @]
 
 PkEnd(e) == /\ st.m = "pk"
             /\ e.res = "ok" /\ e.canary = TRUE
             /\ Len(e.written) = st.plen /\ Len(e.written) <= st.cap
-            /\ st.allok => e.written = ConcatEnc(st.items)
-            /\ Len(st.okpre) <= Len(e.written) /\ SubSeq(e.written, 1, Len(st.okpre)) = st.okpre
+            /\ st.allok => e.written = st.accpre
+            \* the accepted items, in order, are what written() starts with (whatever a refused write left
+            \* behind can only follow them)
+            /\ Len(st.accpre) <= Len(e.written) /\ SubSeq(e.written, 1, Len(st.accpre)) = st.accpre
             /\ Detail(e.written = st.buf, "buffer contents after a refused write")
-PkEndSt(e) == [m |-> "done", written |-> e.written, allok |-> st.allok, items |-> st.items]
+PkEndSt(e) == [m |-> "done", written |-> e.written, clean |-> Len(e.written) = Len(st.accpre), items |-> st.acc]
 
 (* ------------------------------------------------------------ unpacker *)
 UpNew(e) == /\ e.demo => Len(e.data) % 4 = 0
             /\ e.src = "packer" => (st.m = "done" /\ e.data = st.written \o Zeros(e.pad))
 UpNewSt(e) == IF e.src = "packer"
               THEN [m |-> "up", data |-> e.data, demo |-> e.demo, pos |-> 0, pad |-> e.pad,
-                    rt |-> st.allok, items |-> st.items, wlen |-> Len(st.written), sync |-> TRUE, ridx |-> 1]
+                    rt |-> TRUE, clean |-> st.clean, items |-> st.items, wlen |-> Len(st.written), sync |-> TRUE, ridx |-> 1]
               ELSE [m |-> "up", data |-> e.data, demo |-> e.demo, pos |-> 0, pad |-> 0,
-                    rt |-> FALSE, items |-> <<>>, wlen |-> 0, sync |-> FALSE, ridx |-> 1]
+                    rt |-> FALSE, clean |-> FALSE, items |-> <<>>, wlen |-> 0, sync |-> FALSE, ridx |-> 1]
 
 R(e) == LET op == Op(e.o, e.n)
             x == Read(st.data, st.pos, st.demo, op)
@@ -111,13 +119,14 @@ R(e) == LET op == Op(e.o, e.n)
                       /\ e.res = "ok" => /\ e.b = x.b /\ e.to = x.to /\ e.v = x.v
                                          /\ (w = {}) <=> (x.w = {})
         /\ ~defined => ((e.res = "ok" /\ e.o = "int") => e.to = x.to /\ w # {})
-        \* written items are read back identically, with no warning
+        \* accepted items are read back identically (also when other writes of the session were
+        \* refused), with no warning
         /\ (insync /\ op = MatchingOp(st.items[st.ridx])) =>
               LET it == st.items[st.ridx] IN
               /\ e.res = "ok" /\ w = {} /\ e.to = st.pos + Len(Enc(it))
               /\ IF it.k = "int" THEN e.v = it.x ELSE e.b = it.b
         \* ... and nothing is left over but the padding
-        /\ (st.rt /\ st.sync /\ st.ridx = Len(st.items) + 1) =>
+        /\ (st.rt /\ st.clean /\ st.sync /\ st.ridx = Len(st.items) + 1) =>
               /\ st.pos = st.wlen
               /\ e.o = "finish" => ((w = {}) <=> (IF st.demo THEN st.pad < 4 ELSE st.pad = 0))
               /\ (e.o \in {"int", "str", "data"} /\ st.pad = 0) => e.res = "end"
